@@ -8,10 +8,13 @@ import (
 	"context"
 	"errors"
 	"fmt"
+	"io"
 	"net/netip"
 	"os"
 	"path/filepath"
 	"strings"
+	"sync/atomic"
+	"verif/netsim"
 
 	"github.com/database64128/shadowsocks-go/conn"
 	"github.com/database64128/shadowsocks-go/dns"
@@ -140,5 +143,76 @@ func HostileRouters(dir string) ([]*router.Router, error) {
 			out = append(out, r)
 		}
 	}
+	// a seventh router consults the repository's own resolver (plain type, TCP transport) for every domain target;
+	// its upstream is an in-memory peer that answers each query in one of several hostile ways
+	rr, err := (&dns.ResolverConfig{Name: "real", Type: "plain", AddrPort: netip.MustParseAddrPort("192.0.2.53:53"), TCPClientName: "mem", CacheSize: 64}).
+		NewSimpleResolver(map[string]netio.StreamClient{"mem": &memDNSClient{}}, nil, zap.NewNop())
+	if err != nil {
+		return nil, err
+	}
+	cfg := router.Config{
+		DefaultTCPClientName: "a", DefaultUDPClientName: "a",
+		Routes: []router.RouteConfig{{Name: "realres", Client: "b", ToPrefixes: []netip.Prefix{netip.MustParsePrefix("203.0.113.0/24")}}},
+	}
+	r7, err := cfg.Router(zap.NewNop(), []dns.SimpleResolver{rr}, map[string]dns.SimpleResolver{"real": rr}, tcp, udp, servers)
+	if err != nil {
+		return nil, err
+	}
+	out = append(out, r7)
 	return out, nil
+}
+
+// memDNSClient is the stream client of the real resolver in HostileRouters: every dial gets an in-memory connection
+// to a peer that reads the length-prefixed queries and answers the k-th one according to k: the query echoed back as
+// an empty NOERROR response, a SERVFAIL, an answer section that promises records and stops, random bytes, a zero
+// length prefix, or an immediate close.
+type memDNSClient struct{ n atomic.Uint64 }
+
+func (c *memDNSClient) NewStreamDialer() (netio.StreamDialer, netio.StreamDialerInfo) {
+	return c, netio.StreamDialerInfo{Name: "mem"}
+}
+
+func (c *memDNSClient) DialStream(ctx context.Context, addr conn.Addr, payload []byte) (netio.Conn, error) {
+	a, b := netsim.Pair(nil, nil, false)
+	if len(payload) > 0 {
+		a.Write(payload)
+	}
+	go func() {
+		defer b.Close()
+		for {
+			var lp [2]byte
+			if _, err := io.ReadFull(b, lp[:]); err != nil {
+				return
+			}
+			q := make([]byte, int(lp[0])<<8|int(lp[1]))
+			if _, err := io.ReadFull(b, q); err != nil || len(q) < 12 {
+				return
+			}
+			k := c.n.Add(1)
+			resp := append([]byte{}, q...)
+			resp[2] |= 0x80 // QR
+			resp[3] |= 0x80 // RA
+			switch k % 7 {
+			case 0: // empty NOERROR
+			case 1:
+				resp[3] |= 2 // SERVFAIL
+			case 2:
+				resp[7] = 3 // ANCOUNT=3, nothing follows
+			case 3:
+				resp = resp[:12+(len(resp)-12)/2] // cut inside the question
+			case 4:
+				for i := 2; i < len(resp); i++ {
+					resp[i] = byte(k*31 + uint64(i)*7)
+				}
+			case 5:
+				b.Write([]byte{0, 0})
+				continue
+			default:
+				return
+			}
+			b.Write([]byte{byte(len(resp) >> 8), byte(len(resp))})
+			b.Write(resp)
+		}
+	}()
+	return a, nil
 }
